@@ -78,7 +78,27 @@ func columnCursorRule(c *Ctx, rule string, fn *ssa.Function) {
 	)
 	// bits that hold on every path to an instruction
 	must := map[ssa.Instruction]uint64{}
+	// comparison operators chosen by a helper (`operator = "<"` … merged in a phi): the constant that flows in on
+	// the current path, with the direction bits of that path
+	type opEvent struct {
+		op   string
+		bits uint64
+		pos  token.Pos
+	}
+	var opEvents []opEvent
+	isCmpOp := func(s string) bool { return s == "<" || s == ">" || s == "<=" || s == ">=" }
 	pr := &PathRule{
+		Inline: func(ci ssa.CallInstruction) []*ssa.Function {
+			if g := staticCallee(ci); g != nil && fnPkgPath(origin(g)) == fnPkgPath(origin(fn)) && len(g.Blocks) > 0 && g != fn {
+				// helpers of the package that take the direction as a parameter
+				for _, a := range ci.Common().Args {
+					if fieldOn(a, q, "Reverse") {
+						return []*ssa.Function{g}
+					}
+				}
+			}
+			return nil
+		},
 		Edge: func(pc *PathCtx, s uint64, from *ssa.BasicBlock, si int) (uint64, bool) {
 			for _, f := range pc.edgeFacts(from, si) {
 				b, isB := constBool(f.Y)
@@ -86,11 +106,15 @@ func columnCursorRule(c *Ctx, rule string, fn *ssa.Function) {
 					continue
 				}
 				val := b == f.Eq
-				if fieldOn(f.X, q, "Reverse") {
+				if fieldOn(pc.Resolve(f.X), q, "Reverse") {
+					// the direction of the query does not change during the call: a second test cannot disagree
+					if (val && s&bRevF != 0) || (!val && s&bRevT != 0) {
+						return s, false
+					}
 					if val {
-						s = (s | bRevT) &^ bRevF
+						s |= bRevT
 					} else {
-						s = (s | bRevF) &^ bRevT
+						s |= bRevF
 					}
 				}
 				if bo, ok := f.X.(*ssa.BinOp); ok && bo.Op == token.GTR {
@@ -101,6 +125,24 @@ func columnCursorRule(c *Ctx, rule string, fn *ssa.Function) {
 							} else {
 								s &^= bMore
 							}
+						}
+					}
+				}
+			}
+			// a comparison operator that flows into a phi of the successor along this edge
+			to := from.Succs[si]
+			for _, ins := range to.Instrs {
+				phi, ok := ins.(*ssa.Phi)
+				if !ok {
+					break
+				}
+				if !isStringType(phi.Type()) {
+					continue
+				}
+				for i, p := range to.Preds {
+					if p == from && i < len(phi.Edges) {
+						if sv, ok := constString(phi.Edges[i]); ok && isCmpOp(sv) {
+							opEvents = append(opEvents, opEvent{sv, s, phi.Pos()})
 						}
 					}
 				}
@@ -156,6 +198,22 @@ func columnCursorRule(c *Ctx, rule string, fn *ssa.Function) {
 				c.undecided(rule, "UsingColumn:reader-table", call.Pos(), "a bound on the pagination column is applied on a path that has not tested query.Reverse")
 				return
 			}
+		}
+	}
+	for _, ev := range opEvents {
+		st := strictness(1)
+		if strings.Contains(ev.op, "=") {
+			st = 2
+		}
+		nWhere++
+		switch {
+		case ev.bits&bRevT != 0:
+			reader[true][st] = ev.pos
+		case ev.bits&bRevF != 0:
+			reader[false][st] = ev.pos
+		default:
+			c.undecided(rule, "UsingColumn:reader-table", fn.Pos(), "a comparison operator is chosen on a path that has not tested the direction")
+			return
 		}
 	}
 	strictOf := func(rev bool) (strictness, bool) {
